@@ -74,7 +74,7 @@ theorem bitsByPieceType_eq (b : Board) (p : Piece) : b.bitsByPieceType p = b.typ
   cases p <;> rfl
 
 /-- pointwise form of `bits_for_piece` -/
-theorem bitsForPiece_bit (b : Board) (p : Piece) (o : Bool) (i : Nat) (hi : i < 64) :
+theorem bitsForPiece_planeBit (b : Board) (p : Piece) (o : Bool) (i : Nat) (hi : i < 64) :
     bit (b.bitsForPiece p o) i =
       (bit (b.typeBits p) i && (if o then bit b.p1 i else (!bit b.p1 i && bit b.all i))) := by
   unfold Board.bitsForPiece Board.playerPieceMask
@@ -104,7 +104,7 @@ theorem placeBoard_planes (b : Board) (t : Bool) (p : Piece)
   have h5 : bit (if (o, g) = (t, p) then b.placementBit else 0) i =
       (decide (o = t) && decide (g = p) && bit b.placementBit i) := by
     by_cases ho : o = t <;> by_cases hg : g = p <;> simp [ho, hg]
-  rw [bit_xor, h5, bitsForPiece_bit _ _ _ _ hi, bitsForPiece_bit _ _ _ _ hi, placeBoard_p1] at *
+  rw [bit_xor, h5, bitsForPiece_planeBit _ _ _ _ hi, bitsForPiece_planeBit _ _ _ _ hi, placeBoard_p1] at *
   rw [placeBoard_typeBits] at h4 ⊢
   have h6 : bit (if g = p then b.typeBits g ||| b.placementBit else b.typeBits g) i =
       (bit (b.typeBits g) i || (decide (g = p) && bit b.placementBit i)) := by
